@@ -119,6 +119,17 @@ Theorem C08_owner_lookup_invariant_refuted :
                        is_prefix t (with_slash p) = true /\ c_role cl = ROutput.
 Proof. exact owner_lookup_invariant_refuted. Qed.
 
+(* Nested static trees of ONE creator (any variant of the code): the parent first makes the child a
+   no-op, the child first makes the parent an error.  Documented in DirectorHandler.declare_static
+   and asserted by the repo's own test_static_tree_subdir; reported as an observation. *)
+Theorem C08_same_creator_nested_trees_refuted :
+  let r1 := RqTree (CStep w_B) w_d in
+  let r2 := RqTree (CStep w_B) (w_d ++ s2l "/sub"%string) in
+  accepted (step w_gm false false w_boot r1) = true /\ accepted (step w_gm false false w_boot r2) = true /\
+  accepted (run w_gm false false w_boot [r1; r2]) = true /\
+  run w_gm false false w_boot [r2; r1] = Err (MTreeParent (w_d ++ [47])).
+Proof. exact same_creator_nested_trees_refuted. Qed.
+
 (* ---- 3. either order: what is proved ------------------------------------------------------- *)
 
 (* The full statement (kept for the record; proved only in the parts below and refuted for the
